@@ -43,7 +43,7 @@ def ops_str(tags, opts=None, final="x"):
 
 def bad_token(outs):
     for o in outs:
-        for t in ("PANIC", "LIMIT", "FUEL", "CRASH", "BADCASE", "BADCMD", "BADITEM"):
+        for t in ("PANIC", "LIMIT", "FUEL", "CRASH", "HANG", "BADCASE", "BADCMD", "BADITEM"):
             if t in o:
                 return t
     return None
